@@ -27,9 +27,9 @@ claimed = {
   note="go list / go build of go1.24 are the reference; errors compared as accept/reject; '//go:embed<TAB>' is not generated because go/build and the gc compiler disagree about it.",
   design="§3 C16"),
  "C07": dict(
-  technique="property-based testing (rapid): differential of the descriptor-naming function against go/types.Identical over generated type pools with one-attribute near-miss mutants",
-  text="rapid generates multi-package Go source (named/alias/generic/interface declarations, composite type expressions, copies in other packages, near-miss mutants, equal-named local types), type-checks it in-process and compares, for every pair, equality of abi.Builder.TypeName (the link name that makes two run-time descriptors one) with types.Identical, in both directions. Exploration only.",
-  note="go/types.Identical is trusted as the reference; the in-process part covers the naming function, not yet the compiled assertion/type-switch/reflect paths; three genuine findings are listed in known_findings.json and excluded by key.",
+  technique="(a) property-based testing (rapid): differential of the descriptor-naming function against go/types.Identical over generated type pools with one-attribute near-miss mutants; (b) differential testing of rapid-generated multi-package programs (templates exercising run-time type identity and method tables) against gc",
+  text="(a) rapid generates multi-package Go source (named/alias/generic/interface declarations, composite type expressions, copies in other packages, near-miss mutants, equal-named local types), type-checks it in-process and compares, for every pair, equality of abi.Builder.TypeName (the link name that makes two run-time descriptors one) with types.Identical, in both directions. (b) programs composed of the generator's type-identity templates (assertions and type switches on values boxed in another package, sealed interfaces with promoted unexported methods, generic instances with same-named local types and composite type arguments from two packages of the same name, embedding, bound methods) are built by gc and by the llgo under test (O0, O2, O2+nogc) and must print the same tokens. Exploration only.",
+  note="go/types.Identical and gc are trusted as references; reflect-level identity is C15's subject; three genuine findings of (a) are listed in known_findings.json and excluded by key.",
   design="§3 C07"),
  "C02": dict(
   technique="differential testing with generated operands (rapid) and exhaustive 8-bit enumeration: llgo-compiled operator table vs the same functions executed natively",
